@@ -271,6 +271,78 @@ var hostilePieces = []string{
 	"/a {a 1} def a",
 }
 
+// Objects handed out by operators that take no operands (matrix,
+// StandardEncoding, userdict, errordict, FontDirectory ...): every name of
+// systemdict is executed on an empty stack in an instance of its own, and
+// what it leaves is rendered.  The hostile counterpart writes into each such
+// object (see init).
+func nullaryResults() string {
+	var sb strings.Builder
+	var names []string
+	for n := range postscript.NewInterpreter().SystemDict {
+		names = append(names, string(n))
+	}
+	sort.Strings(names)
+	for _, n := range names {
+		switch n {
+		case "currentfile", "eexec", "closefile", "readstring", "stop", "exit", "loop":
+			continue
+		}
+		intp := postscript.NewInterpreter()
+		intp.MaxOps = 1000
+		func() {
+			defer func() { recover() }()
+			intp.ExecuteString(n)
+		}()
+		if len(intp.Stack) == 1 {
+			switch v := intp.Stack[0].(type) {
+			case postscript.Array:
+				fmt.Fprintf(&sb, "%s=%v;", n, v)
+			case postscript.String:
+				fmt.Fprintf(&sb, "%s=%q;", n, string(v))
+			case postscript.Dict:
+				keys := make([]string, 0, len(v))
+				for k := range v {
+					keys = append(keys, string(k))
+				}
+				sort.Strings(keys)
+				fmt.Fprintf(&sb, "%s=dict%v;", n, keys)
+			}
+		}
+	}
+	return sb.String()
+}
+
+func init() {
+	// writes into whatever an operand-less operator hands out
+	var sysNames []string
+	for n := range postscript.NewInterpreter().SystemDict {
+		sysNames = append(sysNames, string(n))
+	}
+	sort.Strings(sysNames) // the list of pieces must not depend on map order
+	for _, n := range sysNames {
+		intp := postscript.NewInterpreter()
+		intp.MaxOps = 1000
+		switch n {
+		case "currentfile", "eexec", "closefile", "readstring", "stop", "exit", "loop":
+			continue
+		}
+		func() {
+			defer func() { recover() }()
+			intp.ExecuteString(n)
+		}()
+		if len(intp.Stack) != 1 {
+			continue
+		}
+		switch intp.Stack[0].(type) {
+		case postscript.Array, postscript.String:
+			hostilePieces = append(hostilePieces, fmt.Sprintf("%s dup 0 42 put %s dup length 1 sub /oops put", n, n))
+		case postscript.Dict:
+			hostilePieces = append(hostilePieces, fmt.Sprintf("%s /leak 42 put", n))
+		}
+	}
+}
+
 func instanceSummary(intp *postscript.Interpreter) string {
 	var sb strings.Builder
 	dump := func(label string, d postscript.Dict) {
@@ -311,6 +383,7 @@ func instanceSummary(intp *postscript.Interpreter) string {
 	if enc, ok := intp.SystemDict["StandardEncoding"].(postscript.Array); ok {
 		fmt.Fprintf(&sb, "stdenc:%v", enc)
 	}
+	sb.WriteString("nullary:" + nullaryResults())
 	return sb.String()
 }
 
